@@ -37,7 +37,7 @@ FULL_PATH_EVERY = 64
 #                    two-valued (green / rotating not-green) up to this many)
 SLICES = {
     'quick': {1: (99, 0), 2: (5, 99), 3: (0, 99), 4: (0, 7)},
-    'thorough': {1: (99, 0), 2: (99, 0), 3: (5, 99), 4: (0, 9)},
+    'thorough': {1: (99, 0), 2: (99, 0), 3: (5, 99), 4: (0, 10)},
 }
 SAMPLE_GRAPHS = {'quick': 1600, 'thorough': 6400}      # x 16 status tables
 SAMPLE_TABLES = 16
@@ -57,8 +57,8 @@ RULE = (
     'on 16 cores), plus a seeded sample (1600 graphs x 16 four-valued '
     'tables) of 4-PR queues with c>=8; '
     'thorough tier = all 4^c for 1 and 2 PRs and for 3 PRs with c<=5, all '
-    '2^c for every 3-PR queue and 4-PR queues with c<=9, plus a seeded '
-    'sample (6400 graphs x 16 tables) of 4-PR queues with c>=10; every graph '
+    '2^c for every 3-PR queue and 4-PR queues with c<=10, plus a seeded '
+    'sample (6400 graphs x 16 tables) of 4-PR queues with c>=11; every graph '
     'is also evaluated under force merge. Enumerated cells are distinct by '
     'construction, sampled cells are de-duplicated by (graph, table); '
     'non-trivial = at least one queue commit is not SUCCESSFUL (or force '
@@ -81,6 +81,12 @@ ASSUMPTIONS = [
     '(BranchCascade.build, QueueCollection.build, validate, mergeable_prs, '
     'mergeable_queues, failed_prs, queued_prs, real merge_queues) and the '
     'branch movements are read back from the repository',
+    'on the cells that do not go through the whole path, git.Branch is '
+    'given a __deepcopy__ that produces what copy.deepcopy produces by '
+    'default (new instance, memoised, attributes deep-copied) without the '
+    'generic dispatch - _process deep-copies every branch object once per '
+    'merge path, 85% of a cell; the whole-path cells use the stock deepcopy '
+    'and are compared with the same oracle',
     'the order of the list returned by mergeable_prs, and queued_prs / '
     'failed_prs, are outside the statement: recorded, not asserted',
     'the system-level replay on a real repository described in DESIGN.md is '
@@ -264,10 +270,10 @@ class Graph:
 
     @staticmethod
     def _codes(err):
-        # IncoherentQueues prints "... Qxxx: message" lines
-        codes = sorted(set(tok.rstrip(':') for tok in str(err).split()
-                           if len(tok) in (4, 5) and tok[0] == 'Q'
-                           and tok[1:4].isdigit()))
+        # IncoherentQueues lists " - [Qxxx] message" lines
+        codes = sorted(set(tok[1:5] for tok in str(err).split()
+                           if len(tok) == 6 and tok[0] == '[' and tok[1] == 'Q'
+                           and tok[5] == ']' and tok[2:5].isdigit()))
         return '+'.join(codes) or type(err).__name__
 
     def build(self, force):
@@ -621,11 +627,16 @@ def run_shard(spec, acc):
 
 
 def finalize(acc, tier, seed):
-    # smallest witnesses first, so that the driver reports a minimal one per
-    # family
+    # smallest witness of every family first (the driver prints the first ten
+    # distinct ones): rank inside the mechanism, then size
     acc.violations.sort(key=lambda v: (v['mechanism'],
-                                       v['witness'].get('size', [99])))
-    acc.violations.sort(key=lambda v: v['witness'].get('size', [99]))
+                                       v['witness'].get('size', [99]),
+                                       v['desc']))
+    rank, seen = {}, {}
+    for v in acc.violations:
+        seen[v['mechanism']] = seen.get(v['mechanism'], -1) + 1
+        rank[id(v)] = seen[v['mechanism']]
+    acc.violations.sort(key=lambda v: (rank[id(v)], v['mechanism']))
     acc.count('graphs_enumerated', len({u[0] for u in units(tier)}))
 
 
